@@ -10,7 +10,7 @@ git -C /repo worktree add -q --detach "$WT" HEAD || exit 2
 trap 'git -C /repo worktree remove --force "$WT" >/dev/null 2>&1' EXIT
 ok=0; bad=0
 for d in seeded/${1:-}*/; do
-  name=$(basename "$d"); prop=$(jq -r .property "$d/meta.json")
+  name=$(basename "$d"); prop=$(jq -r '.selftest_check // .property' "$d/meta.json")
   if jq -r .detected_by "$d/meta.json" | grep -q "^NOT CAUGHT"; then
     echo "OUTSIDE $name: kept for the record, outside the domain of the checks (see its meta.json)"; continue
   fi
